@@ -209,4 +209,73 @@ theorem cx_strictAnti_ip (q : ℝ) (hq : 0 < q) : StrictAntiOn (fun ip => cxxs q
 
 -- non-vacuity
 example : (0 : ℝ) < 1 ∧ (1 : ℝ) < 1000 ∧ 2 ≤ 50 := by norm_num
+/-! ## default DR sampling band -/
+
+theorem foldl_min_real (xs : List ℝ) (x : ℝ) :
+    (xs.foldl (fun m y => if y < m then y else m) x ≤ x) ∧ (∀ a ∈ xs, xs.foldl (fun m y => if y < m then y else m) x ≤ a) := by
+  induction xs generalizing x with
+  | nil => simp
+  | cons y ys ih =>
+    simp only [List.foldl_cons, List.mem_cons, forall_eq_or_imp]
+    obtain ⟨h1, h2⟩ := ih (if y < x then y else x)
+    by_cases hyx : y < x
+    · simp only [hyx, if_true] at h1 h2 ⊢; exact ⟨by linarith, h1, h2⟩
+    · simp only [hyx, if_false] at h1 h2 ⊢; exact ⟨h1, by linarith [not_lt.mp hyx], h2⟩
+
+theorem foldl_max_real (xs : List ℝ) (x : ℝ) :
+    (x ≤ xs.foldl (fun m y => if m < y then y else m) x) ∧ (∀ a ∈ xs, a ≤ xs.foldl (fun m y => if m < y then y else m) x) := by
+  induction xs generalizing x with
+  | nil => simp
+  | cons y ys ih =>
+    simp only [List.foldl_cons, List.mem_cons, forall_eq_or_imp]
+    obtain ⟨h1, h2⟩ := ih (if x < y then y else x)
+    by_cases hxy : x < y
+    · simp only [hxy, if_true] at h1 h2 ⊢; exact ⟨by linarith, h1, h2⟩
+    · simp only [hxy, if_false] at h1 h2 ⊢; exact ⟨h1, by linarith [not_lt.mp hxy], h2⟩
+
+/-- **the default DR sampling grid covers the resonance band**: for an element with tabulated resonances, a width `w ≥ 0` that keeps the lower
+limit positive and `n ≥ 2`, the grid starts at `min(e_res) − 3w`, ends at `max(e_res) + 3w`, and every tabulated resonance energy lies between
+`first + 3w` and `last − 3w` -/
+theorem drSamp_covers (Z : ℕ) (w : ℝ) (n : ℕ) (hw : 0 ≤ w) (hn : 2 ≤ n) (e0 : ℝ) (rest : List ℝ)
+    (hers : (dr Z).map (fun r => (ofScaled r.2.1 scEres : ℝ)) = e0 :: rest)
+    (hpos : 0 < rest.foldl (fun m x => if x < m then x else m) e0 - 3 * w) :
+    ∃ (h0 : 0 < (drSampDefault Z w n).length) (h1 : n - 1 < (drSampDefault Z w n).length),
+      ∀ e ∈ e0 :: rest, (drSampDefault Z w n)[0] + 3 * w ≤ e ∧ e ≤ (drSampDefault Z w n)[n - 1] - 3 * w := by
+  set lo := rest.foldl (fun m x => if x < m then x else m) e0 with hlo
+  set hi := rest.foldl (fun m x => if m < x then x else m) e0 with hhi
+  have hmin := foldl_min_real rest e0
+  have hmax := foldl_max_real rest e0
+  have hlh : lo - 3 * w < hi + 3 * w ∨ lo - 3 * w = hi + 3 * w := by
+    have : lo ≤ hi := le_trans hmin.1 hmax.1
+    rcases lt_or_eq_of_le (by linarith : lo - 3 * w ≤ hi + 3 * w) with h | h
+    · exact Or.inl h
+    · exact Or.inr h
+  have hdef : drSampDefault Z w n = logspace (lo - 3 * w) (hi + 3 * w) n := by
+    unfold drSampDefault
+    simp only [hers, lit_real]
+    norm_num
+    rw [← hlo, ← hhi]
+  have hlen : (drSampDefault Z w n).length = n := by rw [hdef, logspace_length]
+  refine ⟨by omega, by omega, ?_⟩
+  have hfirst : (drSampDefault Z w n)[0]'(by omega) = lo - 3 * w := by
+    simp only [hdef]
+    rw [logspace_getElem _ _ n 0 (by omega)]
+    simp [ten_pow_log10 _ hpos]
+  have hlast : (drSampDefault Z w n)[n - 1]'(by omega) = hi + 3 * w := by
+    simp only [hdef]
+    rw [logspace_getElem _ _ n (n - 1) (by omega)]
+    have hn1 : (0 : ℝ) < ((n - 1 : ℕ) : ℝ) := by exact_mod_cast (show 0 < n - 1 by omega)
+    rw [div_self hn1.ne', mul_one]
+    have hhip : 0 < hi + 3 * w := by
+      have : lo ≤ hi := le_trans hmin.1 hmax.1
+      linarith
+    have : Real.log (lo - 3 * w) / Real.log 10 + (Real.log (hi + 3 * w) / Real.log 10 - Real.log (lo - 3 * w) / Real.log 10)
+        = Real.log (hi + 3 * w) / Real.log 10 := by ring
+    rw [this, ten_pow_log10 _ hhip]
+  intro e he
+  rw [hfirst, hlast]
+  rcases List.mem_cons.mp he with rfl | he'
+  · exact ⟨by linarith [hmin.1], by linarith [hmax.1]⟩
+  · exact ⟨by linarith [hmin.2 e he'], by linarith [hmax.2 e he']⟩
+
 end C10
